@@ -66,6 +66,7 @@ package carv1
 //@   ensures delegates [C02]: result0 == cr && err == oerr
 
 //@ func LoadCar
+//@   requires a_store [C09]: s != nil
 //@   let cr, nerr := call[NewCarReader#0]
 //@   call[NewCarReader#0] assert same_stream [C02]: ref(arg0) == ref(r)
 //@   call[loadCarFast#0] assert same_reader_and_store [C02]: ref(arg2) == ref(cr)
@@ -73,6 +74,7 @@ package carv1
 //@   ensures open_error_propagates [C02]: nerr != nil ==> err == nerr && result0 == nil
 
 //@ func loadCarFast
+//@   requires a_store [C09]: s != nil
 //@   check clean_end_is_success [C02]: nerr == io.EOF && (len(buf) == 0 || ferr == nil) ==> err == nil && result0 == cr.Header
 //@   let blk, nerr := call[CarReader.Next#0]
 //@   let ferr := call[batchStore.PutMany#0]
@@ -86,6 +88,7 @@ package carv1
 //@   loop[0] step batch_restarts_only_after_a_flush [C02]: len(buf) == 0 || len(buf) == athead(0, len(buf)) + 1
 
 //@ func loadCarSlow
+//@   requires a_store [C09]: s != nil
 //@   ensures clean_end_is_success [C02]: nerr == io.EOF ==> err == nil && result0 == cr.Header
 //@   let blk, nerr := call[CarReader.Next#0]
 //@   let perr := call[Store.Put#0]
